@@ -93,7 +93,11 @@ getStartIndex(
                     1),
                 theResult));
 
-        return XalanDOMString::size_type(theResult);
+        // An index beyond the end of the string may be too large to be
+        // converted, and results in an empty string anyway.
+        return theResult >= double(theStringLength) ?
+                    theStringLength :
+                    XalanDOMString::size_type(theResult);
     }
 }
 
@@ -174,6 +178,11 @@ getSubstringLength(
             if (theTotal <= theXPathStartIndex)
             {
                 return 0;
+            }
+            else if (theTotal - double(theXPathStartIndex) >= double(theMaxLength))
+            {
+                // The total may be too large to be converted...
+                return theMaxLength;
             }
             else
             {
